@@ -1371,7 +1371,8 @@ def gen_table(rng, ctx):
             new = sorted({pick(rng, nonstop) for _ in range(ri(rng, lo, 6))})
             ctx.log("table", "load", key, "with_start_codons", new)
             ctx.op("table_with_start_codons")
-            narg = new if rng.random() < 0.5 else tuple(new)
+            narg = [new[int(k)] for k in rng.permutation(len(new))]      # the order of the codons given is arbitrary
+            narg = narg if rng.random() < 0.5 else tuple(narg)
             return _build_table(ctx, lambda: table.with_start_codons(narg), new), aa64, set(new), "load(%r).with_start_codons(%r)" % (key, new)
         changes = {pick(rng, R.CODONS): pick(rng, R.PROT) for _ in range(ri(rng, 1, 6))}
         aa = list(aa64)
@@ -1383,7 +1384,9 @@ def gen_table(rng, ctx):
         if len(starts) != len(R.NCBI_STARTS[tid]):
             if not starts and not ctx.allowed("empty_start_codon_set"):
                 return gen_table(rng, ctx)
-            t2 = _build_table(ctx, lambda: t2.with_start_codons(sorted(starts)), starts)
+            sl = sorted(starts)
+            sl = [sl[int(k)] for k in rng.permutation(len(sl))]
+            t2 = _build_table(ctx, lambda: t2.with_start_codons(sl), starts)
         # the parent table must not have been modified
         ctx.check(table.codon_dict() == {c: aa64[R.codon_index(c)] for c in R.CODONS}, "table_lookup",
                   "with_codon_mappings modified the original table")
@@ -1404,7 +1407,8 @@ def gen_table(rng, ctx):
         d = dict(items[i] for i in rng.permutation(64))
     ctx.log("table", "random", R.aa64_from_dict(d), starts)
     ctx.op("table_random")
-    sarg = starts if rng.random() < 0.6 else tuple(starts)
+    sarg = [starts[int(k)] for k in rng.permutation(len(starts))]
+    sarg = sarg if rng.random() < 0.6 else tuple(sarg)
     return _build_table(ctx, lambda: CodonTable(d, sarg), starts), R.aa64_from_dict(d), set(starts), "CodonTable(random, %r)" % (starts,)
 
 
